@@ -135,10 +135,10 @@ def diff_kind(got, exp):
 
 
 def same(a, b):
-    """equality of canonical values with floats compared to the printed precision (6 significant digits)"""
+    """equality of canonical values with floats compared to the printed precision (6 significant digits: half a unit of the sixth digit is up to 5e-6 of the value)"""
     if isinstance(a, tuple) and isinstance(b, tuple) and a[0] == b[0]:
         if a[0] == "f":
-            return a[1] == b[1] or abs(a[1] - b[1]) <= 2e-6 * max(abs(a[1]), abs(b[1]))
+            return a[1] == b[1] or abs(a[1] - b[1]) <= 6e-6 * max(abs(a[1]), abs(b[1]))
         if a[0] in ("a", "c"):
             return len(a[1]) == len(b[1]) and all(same(x, y) for x, y in zip(a[1], b[1]))
         if a[0] == "m":
@@ -421,6 +421,19 @@ def run_crashpoints(ctx, v, only_k=None):
     return None
 
 
+BUILDS = [("asan", ["lpcvm"]), ("fuzz", ["fuzz_restore"])]      # built by the parent process before the shards start
+
+# seeds and dictionary of the coverage-guided target (harness/fuzz_restore.cpp): texts in the save format
+FUZZ_SEEDS = [b'12', b'-9223372036854775808', b'1.5', b'"a\\"b\\\\c\rd"', b'({1,"x",2.500000,({}),})', b'(["k":({1,2,}),3:"v",])', b'(/1,"s",/)', b'({(["a":({}),]),({({({}),}),}),})',
+              b'0', b'""', b'({})', b'([])', b'1e10', b'-0.000001', b'({1,})' * 3, b'(["a":1,"a":2,])']
+FUZZ_DICT = ['({', '})', '([', '])', '(/', '/)', '",', '":', ',', ':', '"', '\\', '\"', '\r', '-', '.', 'e', '0', '9223372036854775807', '1.5', '#', '(', ')']
+
+
+def fuzz_root(ctx, name):
+    from .. import fuzz
+    return fuzz.setup(ctx.scratch(name), {}, FUZZ_SEEDS, FUZZ_DICT)
+
+
 def shard_main(ctx):
     from hypothesis import given
     n = {"quick": 2500, "thorough": 40000}[ctx.tier]
@@ -446,9 +459,20 @@ def shard_main(ctx):
         ctx.failures.append(dict(sig=f.sig, case=f.case, detail=f.detail[:8000]))
     finally:
         close_workers(ctx)
+    # shards 8-11 (quick) / all shards (thorough): a coverage-guided campaign over save-format texts with the round-trip oracle in the target
+    if not ctx.failures and (ctx.tier == "thorough" or 8 <= ctx.shard < 12):
+        from .. import fuzz
+        fuzz.campaign(ctx, "fuzz_restore", "C16", fuzz_root(ctx, "fuzz"), {"quick": 60000, "thorough": 4000000}[ctx.tier], max_len=2048)
 
 
 def replay(ctx, case):
+    if case.get("kind") == "fuzz":
+        from .. import fuzz
+        root = fuzz_root(ctx, "fuzz-replay")
+        path = os.path.join(root, "input")
+        open(path, "wb").write(case["data"].encode("latin-1"))
+        crashed, err = fuzz.run_file("fuzz_restore", root, path)
+        return (fuzz.signature(err, "C16"), err[-3000:]) if crashed else None
     try:
         f, _ = evaluate_case(ctx, get_worker(ctx), case)
         return f
